@@ -27,7 +27,8 @@ var SumOverloads = []physical.AggregateDescriptor{
 }
 
 type SumInt struct {
-	sum int64
+	sum   int64
+	count int64
 }
 
 func NewSumIntPrototype() func() nodes.Aggregate {
@@ -41,10 +42,13 @@ func NewSumIntPrototype() func() nodes.Aggregate {
 func (c *SumInt) Add(retraction bool, value octosql.Value) bool {
 	if !retraction {
 		c.sum += value.Int
+		c.count++
 	} else {
 		c.sum -= value.Int
+		c.count--
 	}
-	return c.sum == 0
+	// The aggregate is empty when no elements are left, not when they happen to sum to zero.
+	return c.count == 0
 }
 
 func (c *SumInt) Trigger() octosql.Value {
@@ -52,7 +56,8 @@ func (c *SumInt) Trigger() octosql.Value {
 }
 
 type SumFloat struct {
-	sum float64
+	sum   float64
+	count int64
 }
 
 func NewSumFloatPrototype() func() nodes.Aggregate {
@@ -66,10 +71,13 @@ func NewSumFloatPrototype() func() nodes.Aggregate {
 func (c *SumFloat) Add(retraction bool, value octosql.Value) bool {
 	if !retraction {
 		c.sum += value.Float
+		c.count++
 	} else {
 		c.sum -= value.Float
+		c.count--
 	}
-	return c.sum == 0
+	// The aggregate is empty when no elements are left, not when they happen to sum to zero.
+	return c.count == 0
 }
 
 func (c *SumFloat) Trigger() octosql.Value {
@@ -77,7 +85,8 @@ func (c *SumFloat) Trigger() octosql.Value {
 }
 
 type SumDuration struct {
-	sum time.Duration
+	sum   time.Duration
+	count int64
 }
 
 func NewSumDurationPrototype() func() nodes.Aggregate {
@@ -91,10 +100,13 @@ func NewSumDurationPrototype() func() nodes.Aggregate {
 func (c *SumDuration) Add(retraction bool, value octosql.Value) bool {
 	if !retraction {
 		c.sum += value.Duration
+		c.count++
 	} else {
 		c.sum -= value.Duration
+		c.count--
 	}
-	return c.sum == 0
+	// The aggregate is empty when no elements are left, not when they happen to sum to zero.
+	return c.count == 0
 }
 
 func (c *SumDuration) Trigger() octosql.Value {
